@@ -78,3 +78,14 @@ claim("C03",
       "Decides that the access check is installed as the proxy's pre-request hook and runs before any handler, that a request is admitted only with a negative client verdict and (single question) a negative blocked-host verdict and otherwise leaves through preBlockedResponse, that nothing reachable from the hook logs, counts or resolves, that UDP and DNSCrypt get no packet back while every other transport gets REFUSED, that allow-list mode is derived from all three allowed collections, that allowed/disallowed collections are consulted only in their mode, that 'blocked' is produced only under the allow-list rule (both excluded) or the block-list rule (one excluded), and that the three parts of the decision read one snapshot under the server lock. "
       "CIDR containment, zones, ClientID case and blocked-host pattern semantics are value-level and not decided.",
       "DESIGN.md §5 C03")
+
+claim("C01",
+      "stage/checker list extraction from slice literals, CFG path guards, static reachability to exchange primitives with a classified site table, enum/switch agreement and constructor mapping, non-nil constructor fixpoint (static analysis)",
+      "Decides the structural skeleton of 'blocked means answered locally': request filtering precedes the upstream stage, which resolves only when no response is set; a filtered result always sets a (non-nil) blocked response before the stage returns; every site that can send a DNS message upstream is classified and request filtering reaches only the block-page lookup (with the configured host as question) and the hash-prefix lookup; the blocking-mode switch covers exactly the declared modes with their documented constructors; checkers run in the documented order with first-match-wins and allow-before-block; protection/filtering flags gate every verdict and come from the protection status; rule engines are swapped, never removed, while serving; allow-listed results skip response filtering. "
+      "Which names a rule set matches (urlfilter), the synthetic RR content and per-client settings values are not decided.",
+      "DESIGN.md §5 C01")
+claim("C02",
+      "type-switch case extraction with operand provenance, loop-exit path guards, store-ordering (must-pass) checks, switch-case set vs declared constants (static analysis)",
+      "Decides that every CNAME, A, AAAA and HTTPS answer record is checked with a value from that record (both hint kinds; the hint checker reports only filtered results), that the loop covers the whole answer section and is left early only on an error or a filtered record, that a filtered record saves the original response before replacing the delivered one, that exactly the four documented result reasons skip response filtering, that it runs exactly under protection-on / from-upstream / filtering-enabled, and that the from-upstream flag is set to true after every successful resolution. "
+      "Rule matching on names and IP literals and per-record allow overrides are urlfilter semantics and not decided.",
+      "DESIGN.md §5 C02")
